@@ -243,15 +243,11 @@ def circuit_is_isomorphic(circuit1, circuit2):
         return True
 
     def edge_match(e1, e2):
-        # Get the first key of the edge dict, normally only 1 key per edge unless we have 2 nodes that are connected by
-        #  2 edges
-        val1 = next(iter(e1))
-        val2 = next(iter(e2))
-
-        # Check for the control_target attribute
-        if e1[val1]["control_target"] != e2[val2]["control_target"]:
-            return False
-        return True
+        # e1 / e2 hold the attributes of ALL parallel edges between two nodes (one per shared register), keyed by the
+        # register label. Compare the control/target roles of all of them, independently of the register names.
+        roles1 = sorted(str(attr["control_target"]) for attr in e1.values())
+        roles2 = sorted(str(attr["control_target"]) for attr in e2.values())
+        return roles1 == roles2
 
     return is_isomorphic(
         circuit1.dag, circuit2.dag, node_match=node_match, edge_match=edge_match
